@@ -228,6 +228,21 @@ def level0():
     return qs
 
 
+def level0_dup():
+    """relations whose (left-most) SELECT repeats an output name before a uniquely named column: only the unique names
+    are requested (check() skips ambiguous ones), and only the column-list wrappers are applied above them, since
+    `s.o0` would be ambiguous in the others"""
+    t, u = base("t"), base("u")
+    left = lambda: select([t], [([R("t", "a")], "o0"), ([R("t", "b")], "o0"), ([R("t", "c")], "o1")])
+    qs = [left()]
+    for op in ("UNION ALL", "EXCEPT"):
+        qs.append(setop(op, left(), select([u], [([R("u", "a")], "x0"), ([R("u", "a")], "x1"), ([R("u", "d")], "x2")])))
+    qs.append(setop("UNION", select([t, u], [([R("t", "a")], "a"), ([R("u", "a")], "a"), ([R("u", "d")], "d"), ([R("t", "c")], "c")],
+                                    on=[R("t", "a"), " = ", R("u", "a")]),
+                    select([t], [([R("t", "b")], "p"), ([R("t", "b")], "q"), ([R("t", "c")], "r"), ([R("t", "a")], "s")])))
+    return qs
+
+
 def wrappers(rel, which=None):
     """every way of putting `rel` one derived-table level deeper; names c0, c1 = first and last column of rel"""
     cols = [n for n, _, _ in columns(rel)]
@@ -265,6 +280,8 @@ def queries(tier):
     l0 = [(f"l0.{i}", q) for i, q in enumerate(level0())]
     l1 = [(f"{p}>{k}", w) for p, q in l0 for k, w in wrappers(q)]
     l2 = [(f"{p}>{k}", w) for p, q in l1 for k, w in wrappers(q)]
+    d0 = [(f"dup.{i}", q) for i, q in enumerate(level0_dup())]
+    l0 = l0 + d0 + [(f"{p}>{k}", w) for p, q in d0 for k, w in wrappers(q, ["collist", "collist-star"])]
     if tier == "quick":
         l3 = [(f"{p}>{k}", w) for p, q in l2 for k, w in wrappers(q, DEEP[:NDEEP])]
         return l0 + l1 + l2 + l3
